@@ -158,6 +158,15 @@ def pattern_key(r):
     return json.dumps([t if t == "/" or t[0] == "L" else ["V", t[1]] for t in r["toks"]] + [r["dom"]])
 
 
+def keeps_double_slash(r, cfg):
+    """does the rule still contain an empty segment ('//') after werkzeug's pairwise slash merging?"""
+    from harness.c03 import merge_toks
+
+    merge = cfg["merge"] if r["merge"] is None else r["merge"]
+    toks = merge_toks(r["toks"]) if merge else r["toks"]
+    return any(a == "/" and b == "/" for a, b in zip(toks, toks[1:]))
+
+
 def alias_config_ok(case):
     """every alias rule has a canonical rule: same endpoint, same arguments, same methods and
     protocol, not an alias (the documented meaning of `alias=True`)"""
@@ -191,6 +200,8 @@ class RedirectStream(Stream):
         {"cfg": mk_cfg(), "rules": [mk_rule(toks_of("/a"), "leaf", methods=["POST"]), mk_rule(toks_of("/a/"), "branch", methods=["GET"])], "adapter": mk_adapter(), "qa": None, "probes": [["/a", "GET"], ["/a", "POST"], ["/a/", "POST"], ["/a//", "GET"]]},
         # subdomain
         {"cfg": mk_cfg(), "rules": [mk_rule(toks_of("/x/"), "x", dom=[["L", "api"]]), mk_rule(toks_of("/y/"), "y")], "adapter": mk_adapter(sub="api"), "qa": None, "probes": [["/x", "GET"], ["/y", "GET"]]},
+        # F12b (known finding): '/a///' keeps an empty segment after pairwise slash merging
+        {"cfg": mk_cfg(), "rules": [mk_rule(toks_of("/<x>/"), "x"), mk_rule(["/", ["L", "a"], "/", "/", "/"], "a")], "adapter": mk_adapter(), "qa": None, "probes": [["/a", "GET"], ["/b", "GET"]]},
     ]
 
     def cases(self, rng, tier):
@@ -419,7 +430,10 @@ class RedirectStream(Stream):
                 path = nxt[0]
             for k1, k2 in zip(kinds, kinds[1:]):
                 if k1 == k2 and not (k1 == "canonical" and self.ambiguous(case, probe, steps)):
-                    res.append((f"two consecutive {k1} redirects", None))
+                    fam = None
+                    if k1 == "slash" and any(keeps_double_slash(r, cfg) for r in case["rules"]):
+                        fam = "F12b"
+                    res.append((f"two consecutive {k1} redirects", fam))
         return res
 
     def oracle(self, case, real_out):
@@ -439,6 +453,8 @@ class RedirectStream(Stream):
     def finding_key(self, case, what):
         if what.endswith(" [F03c]"):
             return "F12a"  # the C12 face of F03c
+        if what.endswith(" [F12b]"):
+            return "F12b"
         return None
 
     def nontrivial(self, case, real_out):
@@ -472,7 +488,8 @@ CHECK = Check(
         "alias rules are claimed only with a canonical (non-alias) rule of the same endpoint, arguments, methods and protocol (the documented meaning of alias=True); an alias without one redirects to itself forever - the `assert url != path` in make_alias_redirect_url compares the URL with 'domain|path' and can never fire (observed, application error)",
         "oracle item 'final endpoint / arguments equal the original's' is asserted when the map does not itself leave the visited paths ambiguous (no path of the chain admitted by two rules): with overlapping rules what a canonical URL denotes is decided by rule priority (C03), not by the redirect",
         "known finding F12a (C12 face of F03c): the slash / merged-slashes redirect is decided before to_python validates the value, so its target can be NotFound",
-        "slash_redirect_converges is proved in the partial form 'the target is directly admitted by the rule that asked for the slash; re-matching it is not None'; excluding a second slash redirect and defaults_redirect_converges are OPEN (see Props/C12.lean) and covered by the stream only",
+        "known finding F12b: a rule that keeps an empty segment after werkzeug's pairwise slash merging ('/a///' -> '/a//') next to a variable rule yields two consecutive slash redirects (negation witness slash_redirect_converges_full_false)",
+        "slash_redirect_converges is proved in two partial forms: the target is directly admitted by the rule that asked for the slash and re-matching it is not None (slash_redirect_converges_partial); on maps none of whose rules keeps an empty segment in the middle the re-match is a found rule, never a second slash redirect (slash_redirect_converges_partial2; F12b shows the hypothesis is needed). That the found rule has the endpoint / values 'the original would have' rests on C03.match_sound / match_priority; defaults_redirect_converges is OPEN (see Props/C12.lean) and covered by the stream only",
     ],
     trusted_extra=["CPython urllib.parse (quote, urlencode, urlunsplit, urlsplit, unquote) for the modelled primitives (validated by the stream, not verified)"],
     quick_budget=6000,
@@ -481,7 +498,7 @@ CHECK = Check(
 
 MANIFEST = {
     "level_text": "Machine-checked Lean 4 theorems about the model of MapAdapter.match's redirects: every router redirect (slash, merged slashes, defaults, alias) is, character for character, bound scheme + '://' + get_host(None or the canonical rule's own subdomain) + script root + a path not starting with '/' + exactly the request's query (redirect_on_bound_host, slash_redirect_on_bound_host incl. the character set quote can emit, by decide over all 256 bytes); the target of a slash redirect is directly admitted by the rule that asked for it and the target of a merged-slashes redirect re-matches to the same rule without another redirect. The model is tied to the code by a differential stream that follows redirects to a fixpoint; the property oracle runs on the real code.",
-    "level_note": "Trusted: Lean kernel; extract.py; harness; CPython urllib.parse (modelled, stream-validated). Partial: exclusion of a second consecutive slash redirect and defaults_redirect_converges are OPEN (stream-covered). BoundOK excludes host_matching. Known finding F12a.",
+    "level_note": "Trusted: Lean kernel; extract.py; harness; CPython urllib.parse (modelled, stream-validated). Partial: the full-strength exclusion of a second consecutive slash redirect is false (F12b, negation witness proved) and is proved under the no-empty-middle-segment hypothesis; defaults_redirect_converges is OPEN (stream-covered). BoundOK excludes host_matching. Known findings F12a, F12b.",
     "technique": "Lean 4 proof (list reasoning over the URL assembly, decide +kernel over all bytes for quote, reuse of the C03 matcher lemmas) + model/code correspondence",
     "design_ref": "DESIGN.md section 4, C12",
 }
